@@ -588,7 +588,7 @@ theorem relabel_in_place_then_read (s : SS) (hwf : s.WF) (m : List (Label × Lab
     (r : Row) (v : Label) (hv : v ∈ s.labels) :
     (ObjOp.relabelIp m).next s = s' ∧ s'.WF ∧ s'.rows = s.rows ∧
     cell s'.labels r.sample ((LSpec.lookup (LSpec.dictOf m) v).getD v) = cell s.labels r.sample v := by
-  have hwf' := relabel_wf s s' hwf m h
+  have hwf' := ssobj_relabel_wf s s' hwf m h
   refine ⟨by simp [ObjOp.next, h], hwf', (relabel_frame s s' m h).1, relabel_cells s s' m h hwf'.1 r v hv⟩
 
 private def demo : SS :=
